@@ -56,6 +56,26 @@ def _merge(a, b):
         a["samples"] += b["samples"][: 3 - len(a["samples"])]
 
 
+def execute(chk, scenario):
+    """One evaluation. A scenario marked `_repeat: 2` is executed twice in this process: the second execution must behave
+    like the first (nothing may survive a run in module-, class-level or otherwise shared storage of the system under test);
+    the oracles judge the second execution exactly as they judged the first."""
+    res = chk.execute(scenario)
+    n = scenario.get("_repeat", 1) if isinstance(scenario, dict) else 1
+    for _ in range(max(0, n - 1)):
+        if res.violations or res.harness_error or res.discarded:
+            break
+        res2 = chk.execute(scenario)
+        res2.runs += res.runs
+        res2.faults["process.same_scenario_executed_again_in_the_same_process"] += 1
+        if res2.digest != res.digest:
+            res2.probes["repeat.second_execution_in_the_same_process_differs"] += 1
+        for v in res2.violations:
+            v["details"]["second_execution_in_the_same_process"] = True
+        res = res2
+    return res
+
+
 def _worker(args):
     cid, base_seed, tier, start, stop, deadline = args
     faulthandler.enable()
@@ -68,7 +88,9 @@ def _worker(args):
         rng = core.rng_for(base_seed, cid, i)
         try:
             scenario = chk.generate(rng, i, tier)
-            res = chk.execute(scenario)
+            if i % 25 == 3 and isinstance(scenario, dict):
+                scenario["_repeat"] = 2
+            res = execute(chk, scenario)
         except core.SimulationAbort:
             raise
         except Exception:
@@ -145,7 +167,7 @@ def _still_fails(chk, v):
 
     def test(scenario):
         try:
-            res = chk.execute(scenario)
+            res = execute(chk, scenario)
         except Exception:
             return False
         if res.harness_error:
@@ -163,7 +185,7 @@ def write_replay(chk, cid, base_seed, idx, v, scenario, shrink_budget):
             minimised = chk.shrink(scenario, test, time.time() + shrink_budget)
         except Exception:
             minimised = scenario
-    res = chk.execute(minimised)
+    res = execute(chk, minimised)
     vv = [x for x in res.violations if core.vkey(x) == core.vkey(v)]
     final = vv[0] if vv else v
     path = _replay_path(cid, v, idx)
@@ -202,7 +224,7 @@ def verify_replay(cid, path):
 def do_replay(cid, path):
     chk = load_check(cid)
     data = json.load(open(path))
-    res = chk.execute(data["scenario"])
+    res = execute(chk, data["scenario"])
     want = data.get("violation")
     if res.harness_error:
         print("HARNESS-ERROR: %s" % res.harness_error)
@@ -234,7 +256,7 @@ def run_corpus(chk, cid, agg, known):
             continue
         path = os.path.join(d, name)
         data = json.load(open(path))
-        res = chk.execute(data["scenario"])
+        res = execute(chk, data["scenario"])
         agg["evaluations"] += 1
         agg["runs"] += res.runs
         agg["probes"]["corpus.replayed"] += 1
